@@ -439,6 +439,24 @@ class Interp:
         if isinstance(node, ast.While):
             return self.loop_havoc(node, st)
         it = self.expr(node.iter, st)
+        if isinstance(it, ListV) and len(it.items) <= 6 and isinstance(node.target, ast.Name):
+            # small literal list: unroll exactly
+            st.site("loop", node, count=C(len(it.items)), what="for-literal")
+            cur = [(st, None)]
+            done = []
+            for item in it.items:
+                nxt = []
+                for s_, o_ in cur:
+                    s_.env[node.target.id] = item
+                    for s2, out in self.block(node.body, s_):
+                        if out is not None and not (isinstance(out[1], Obj) and out[1].kind in ("continue", "break")):
+                            done.append((s2, out))
+                        elif out is not None and out[1].kind == "break":
+                            done.append((s2, None))
+                        else:
+                            nxt.append((s2, None))
+                cur = nxt
+            return done + cur
         dom = self.iter_domain(it, st, node) if not isinstance(it, SeqV) else (it.var, it.count, None, it.elem)
         assigned = {n.id for n in ast.walk(node) if isinstance(n, ast.Name) and isinstance(n.ctx, ast.Store)}
         if dom is None:
